@@ -40,14 +40,17 @@ Definition chk_sext := both
   (fun c : Z * Z * Z * Z => let '(v, w, nw, r) := c in signExtend v w nw =? r)
   (fun c => let '(v, w, nw, r) := c in sign_extend_spec v w nw =? r).
 (* ---- FixedPoint: (sw, iw, fw, a, b, add, sub, mult) *)
-Definition chk_fx := both
+(* iw0: the implementation constructs formats without integer bits (finding #23 repaired); read off by the probe *)
+Definition fx_ctor (iw0 : bool) := if iw0 then FixedPoint_intToFixedPoint_r else FixedPoint_intToFixedPoint.
+Definition chk_fx (iw0 : bool) := both
   (fun c : Z * Z * Z * Z * Z * Z * Z * Z => let '(sw, iw, fw, a, b, r1, r2, r3) := c in
-     oz_eqb (FixedPoint_add sw iw fw a b) r1 && oz_eqb (FixedPoint_sub sw iw fw a b) r2 && oz_eqb (FixedPoint_mult sw iw fw a b) r3)
+     oz_eqb (FixedPoint_add_gen (fx_ctor iw0) sw iw fw a b) r1 && oz_eqb (FixedPoint_sub_gen (fx_ctor iw0) sw iw fw a b) r2 &&
+     oz_eqb (FixedPoint_mult_gen (fx_ctor iw0) sw iw fw a b) r3)
   (fun c => let '(sw, iw, fw, a, b, r1, r2, r3) := c in let w := sw + iw + fw in
      (fx_add_spec w a b =? r1) && (fx_sub_spec w a b =? r2) && (fx_mult_spec w fw a b =? r3)).
 (* ---- FixedPoint(int): (sw, iw, fw, v, r) *)
-Definition chk_fx_int := both
-  (fun c : Z * Z * Z * Z * Z => let '(sw, iw, fw, v, r) := c in oz_eqb (FixedPoint_intToFixedPoint sw iw fw v) r)
+Definition chk_fx_int (iw0 : bool) := both
+  (fun c : Z * Z * Z * Z * Z => let '(sw, iw, fw, v, r) := c in oz_eqb (fx_ctor iw0 sw iw fw v) r)
   (fun c => let '(sw, iw, fw, v, r) := c in (r =? -1) || (fx_of_int_spec (sw + iw + fw) fw v =? r)).
 (* ---- FixedPoint(float) and toFloatingPoint: (sw, iw, fw, x, raw, back_numerator) *)
 Definition chk_fx_float := both
@@ -74,13 +77,13 @@ Definition chk_convert (hp_sube : Z) := both
   (fun c => true).
 (* ---- arithmetic: (a, b, a+b, a-b, a*b, compare) *)
 Definition fin (x : fpnum) : bool := negb (f_inf x) && negb (f_nan x).
-Definition chk_arith := both
+Definition chk_arith (inf_fix zero_fix : bool) := both
   (fun c : fpnum * fpnum * fpnum * fpnum * fpnum * Z => let '(a, b, r1, r2, r3, r4) := c in
-     fp_eqb (FPNum_add a b) r1 && fp_eqb (FPNum_sub a b) r2 && fp_eqb (FPNum_mul a b) r3 && (FPNum_compare a b =? r4))
+     fp_eqb (FPNum_add a b) r1 && fp_eqb (FPNum_sub a b) r2 && fp_eqb (FPNum_mul a b) r3 && (FPNum_compare_with inf_fix zero_fix a b =? r4))
   (fun c => let '(a, b, r1, r2, r3, r4) := c in
      xeqb (xval r1) (xadd (xval a) (xval b)) && xeqb (xval r2) (xsub (xval a) (xval b)) &&
      (negb (fin a && fin b) || xeqb (xval r3) (xmul_fin (xval a) (xval b))) &&
-     (negb (fin a && fin b) || (r4 =? cmpZ (Qcompare (fval a) (fval b))))).
+     (r4 =? xcmpZ (xval a) (xval b))).
 (* ---- FPNum(float): (x, components) *)
 Definition of_pyfloat (x : pyfloat) : fpnum :=
   match x with PNaN => FPNum_of_nan | PInf neg => FPNum_of_inf neg | PFin neg n d => FPNum_of_finite neg n d end.
@@ -112,3 +115,9 @@ Definition chk_misc := both
      fp_eqb (FPNum_reducePrecision x prec) r1 && fp_eqb (FPNum_reducePrecisionWithRounding x prec) r2 &&
      fp_eqb (FPNum_neg x) r3 && fp_eqb (FPNum_abs x) r4 && fp_eqb (FPNum_div2 x prec) r5)
   (fun c => true).
+
+(* ---- reduceExponentPrecision (only when the implementation no longer raises): (x, prec, result) *)
+Definition chk_redexp := both
+  (fun c : fpnum * Z * fpnum => let '(x, prec, r) := c in fp_eqb (FPNum_reduceExponentPrecision x prec) r)
+  (fun c => let '(x, prec, r) := c in
+     Qeq_bool (fval r) (fval x) && Bool.eqb (f_inf r) (f_inf x || (f_e x + (2 ^ prec - 1) / 2 >=? 2 ^ prec - 1))).
